@@ -477,7 +477,10 @@ class C19(Prop):
 
     def _execute(self, spec):
         clients = spec['clients']
-        waves = spec['waves']
+        # the harness tells genuine events apart by the number UID0+k in their first argument: a forged packet must not
+        # carry such a number (the generator or shrinker can arrive at it) - rewritten to another number of the same length
+        waves = [dict(w, forged=[dict(f, raw=f['raw'].replace('7310', '1310')) for f in w['forged']]) for w in spec['waves']]
+        spec = dict(spec, waves=waves)
         scripts = {}
         for wi, w in enumerate(waves):
             for ei, sc in enumerate(w['sends']):
